@@ -193,33 +193,47 @@ pub fn run(ctx: &Ctx, rep: &mut Report) {
             }
         }
     }
-    // far beyond the protocol maximum (std / alloc only): texts of 300..2000 characters with
-    // runs of 255 / 256 / 257 / 600 identical padding characters between letters
+    // far beyond the protocol maximum (std / alloc only): texts of hundreds to thousands of
+    // characters with runs of identical padding characters whose lengths sit at and next to
+    // every power of two up to 8192 (block sizes, 8/16-bit counters), leading / after one letter /
+    // trailing / before one letter, with little or much other text around
     if !noalloc {
         let mut idx2 = 0u64;
+        let mut runs: Vec<usize> = vec![600, 1000, 3000];
+        for p in 6..=13u32 {
+            let q = 1usize << p;
+            runs.extend_from_slice(&[q - 1, q, q + 1]);
+        }
         for t in [12u8, 14] {
             let hdr = if t == 12 { 72 } else { 40 };
-            for total in [300usize, 520, 1000, 2000] {
-                for run in [255usize, 256, 257, 600] {
-                    for pad in [AT, SP, 63u8] {
-                        if run + 2 > total {
-                            continue;
-                        }
+            for &run in &runs {
+                for pad in [AT, SP, 63u8] {
+                    for extra in [1usize, 2, 7, 300] {
                         if !ctx.mine(idx2) {
                             idx2 += 1;
                             continue;
                         }
                         idx2 += 1;
+                        if run > 1100 && !ctx.thorough() && extra == 7 {
+                            continue;
+                        }
+                        let total = run + extra;
                         let b = Branch { t, len: hdr + 6 * total, name: "long-run-text", force: &[] };
-                        for start in [1usize, 0, total - run - 1] {
+                        let mut starts = vec![0usize, total - run];
+                        if extra >= 2 {
+                            starts.push(1);
+                            starts.push(total - run - 1);
+                        }
+                        for start in starts {
                             let mut bits = fresh(&b, &mut r);
                             for i in 0..total {
                                 let v = if i >= start && i < start + run { pad } else { 1 + (i % 26) as u8 };
                                 bits.put(hdr + 6 * i, 6, v as u64);
                             }
                             n += 1;
-                            rep.class(format!("t{}|long-run|pad{}|run{}", t, pad, run));
-                            gen::run_message(rep, PID, Some(13), &bits, via_for(n), b.name);
+                            rep.class(format!("t{}|long-run|pad{}|run{}|{}", t, pad, run, if start == 0 { "leading" } else if start + run == total { "trailing" } else { "inner" }));
+                            // armored text route and whole-line route (a raw buffer is the same bits)
+                            gen::run_message(rep, PID, Some(13), &bits, if n % 2 == 0 { gen::Via::Armor } else { gen::Via::Line }, b.name);
                         }
                     }
                 }
